@@ -28,7 +28,7 @@ Definition fits (U : list msg) (x : Z) : Prop := exists base, 0 <= base < 2^32 /
 Fixpoint windowed (U : list msg) (ops : list op) (tr : list (list out)) : Prop :=
   match ops, tr with
   | o :: ops', outs :: tr' =>
-      (match o with Push (Some m) _ => fits U (mseq m) | _ => True end) /\
+      (match o with Push (Some m) _ _ => fits U (mseq m) | _ => True end) /\
       (forall U2, chk_outs (pushU U o) outs = Some U2 -> windowed U2 ops' tr')
   | _, _ => True
   end.
@@ -113,9 +113,9 @@ Proof.
     - rewrite <- app_assoc. rewrite (chk_outs2_app _ _ _ _ H2). destruct (lost >? 0); auto.
     - rewrite <- app_assoc. rewrite (chk_outs_app _ _ _ _ H1). destruct (lost >? 0); auto. }
   cbn [run] in Hw. destruct (step c s o) as [s' outs] eqn:Est. cbn [windowed] in Hw. destruct Hw as [Hf Hw].
-  destruct o as [[m|] now | now | ]; cbn [step] in Est.
-  - pose proof (put_inv c now m s U HI) as HP. pose proof (put_sorted c now m s U HI Hs Hf) as HS.
-    specialize (STEP (put c now m s) _ [] HP HS false now). rewrite Est in STEP.
+  destruct o as [[m|] now now2 | now | ]; cbn [step] in Est.
+  - pose proof (put_inv c now now2 m s U HI) as HP. pose proof (put_sorted c now m s U HI Hs Hf) as HS.
+    specialize (STEP (put c now m s) _ [] HP HS false now2). rewrite Est in STEP.
     destruct STEP as (U' & H2 & H1 & HI' & Hs'). rewrite app_nil_r in *. cbn [chk_outs2 chk_outs] in H2, H1. rewrite H2. apply IH; auto.
   - inversion Est; subst. cbn. apply IH; auto.
   - destruct (closed s).
